@@ -3,6 +3,7 @@ package main
 import (
 	"fmt"
 	"go/ast"
+	"go/token"
 	"go/types"
 	"strings"
 
@@ -47,7 +48,7 @@ func first(xs []int,
 	if len(xs) == 0 {
 		return def
 	}
-	return xs[0]
+	return int(int64(xs[0])) / def
 }
 `},
 	{"main", `package main
@@ -105,9 +106,12 @@ func H_C04_forward_backward() {
 	}
 	s := srcs[symx.Choose(len(srcs))]
 	var lpkg *listedPackage
-	id := symx.Bytes("actionID", 32) // natively go list computes the real one
+	id := symx.Bytes("actionID", 32) // natively go list computes the real ones
+	// the other package's action ID: any ID that differs from this one (in its first byte)
+	id2 := append([]byte{symx.Byte("actionID2")}, id[1:]...)
+	symx.Assume(id2[0] != id[0])
 	if symx.Symbolic() {
-		lpkg = c13Engine(s.pkg, s.src, true, id)
+		lpkg = c13Engine(s.pkg, s.src, true, id, id2)
 	} else {
 		defer c13Native(s.pkg, s.src, true)()
 		defer symx.FSCleanup()
@@ -141,6 +145,22 @@ func H_C04_forward_backward() {
 			}
 		}
 	}
+	// forward specification: every identifier that begins a call expression is
+	// preceded by a position directive naming hash(pkg, "file.go:offset of that call")
+	startsCall := make(map[token.Pos]bool)
+	for node := range ast.Preorder(file) {
+		if call, ok := node.(*ast.CallExpr); ok {
+			startsCall[call.Pos()] = true
+		}
+	}
+	var expected []string
+	for node := range ast.Preorder(file) {
+		if id, ok := node.(*ast.Ident); ok && startsCall[id.Pos()] {
+			if off := fset.Position(id.Pos()).Offset; off < len(s.src) {
+				expected = append(expected, hashWithPackage(lpkg, fmt.Sprintf("a.go:%d", off))+".go")
+			}
+		}
+	}
 	out, err := printFile(lpkg, file)
 	if err != nil {
 		symx.Fail("printFile: " + err.Error())
@@ -152,6 +172,10 @@ func H_C04_forward_backward() {
 	// what reverse is asked about: every hashed position, every renamed declaration
 	var ask, want []string
 	dirs := c04Directives(printed)
+	symx.Assert(len(dirs) >= len(expected), "every call that begins with an identifier gets a position directive")
+	for i := 0; i < len(expected) && i < len(dirs); i++ {
+		symx.Assert(dirs[i] == expected[i], fmt.Sprintf("position directive %d names the call that begins at the identifier it precedes", i))
+	}
 	matched := 0
 	for _, d := range dirs {
 		if d == "" {
@@ -209,6 +233,7 @@ func H_C04_forward_backward() {
 		ask = append(ask, lpkg.obfuscatedImportPath())
 		want = append(want, lpkg.ImportPath)
 	}
+	ask, want = c13AskOther(ask, want, orig)
 	symx.Reach("asked")
 
 	back, err := c13Reverse(ask, want)
